@@ -1,7 +1,138 @@
-// harness commands owned by property C15
+// harness commands owned by property C15 (staged compilation through JSON equals one-shot compile)
 #![allow(unused_imports, dead_code)]
 use serde_json::{json, Value};
 
-pub fn dispatch(_cmd: &str, _req: &Value) -> Option<Value> {
-    None
+use crate::{errs, guarded, options, s};
+
+// source -> PL -> JSON -> PL -> RQ -> JSON -> RQ -> SQL, reporting the stage that failed
+fn staged(req: &Value, o: &prqlc::Options) -> Value {
+    let pl = match prqlc::prql_to_pl(s(req, "src")) {
+        Ok(x) => x,
+        Err(e) => return json!({"stage": "prql_to_pl", "r": errs(e)}),
+    };
+    let j = match prqlc::json::from_pl(&pl) {
+        Ok(x) => x,
+        Err(e) => return json!({"stage": "from_pl", "r": errs(e)}),
+    };
+    let pl2 = match prqlc::json::to_pl(&j) {
+        Ok(x) => x,
+        Err(e) => return json!({"stage": "to_pl", "r": errs(e)}),
+    };
+    let rq = match prqlc::pl_to_rq(pl2) {
+        Ok(x) => x,
+        Err(e) => return json!({"stage": "pl_to_rq", "r": errs(e)}),
+    };
+    let j = match prqlc::json::from_rq(&rq) {
+        Ok(x) => x,
+        Err(e) => return json!({"stage": "from_rq", "r": errs(e)}),
+    };
+    let rq2 = match prqlc::json::to_rq(&j) {
+        Ok(x) => x,
+        Err(e) => return json!({"stage": "to_rq", "r": errs(e)}),
+    };
+    match prqlc::rq_to_sql(rq2, o) {
+        Ok(sql) => json!({"stage": "done", "r": {"ok": sql}}),
+        Err(e) => json!({"stage": "rq_to_sql", "r": errs(e)}),
+    }
+}
+
+// {src, target?, format?, sig?} -> {"direct": compile result, "staged": {"stage":..,"r": result}}
+fn cmd_both(req: &Value) -> Value {
+    let o = match options(req) {
+        Ok(o) => o,
+        Err(v) => return v,
+    };
+    let direct = guarded(|| match prqlc::compile(s(req, "src"), &o) {
+        Ok(sql) => json!({ "ok": sql }),
+        Err(e) => errs(e),
+    });
+    let st = guarded(|| staged(req, &o));
+    json!({"direct": direct, "staged": st})
+}
+
+// the implementation's own JSON *text* of PL and RQ (key order and number text as serde_json wrote them),
+// plus the verdicts of the Rust-side round trip
+fn cmd_json(req: &Value) -> Value {
+    let mut out = serde_json::Map::new();
+    let pl = match prqlc::prql_to_pl(s(req, "src")) {
+        Ok(x) => x,
+        Err(e) => return errs(e),
+    };
+    match prqlc::json::from_pl(&pl) {
+        Ok(j) => {
+            match prqlc::json::to_pl(&j) {
+                Ok(pl2) => {
+                    out.insert("pl_eq".into(), json!(pl2 == pl));
+                    out.insert("pl_text_eq".into(), json!(prqlc::json::from_pl(&pl2).ok().as_deref() == Some(j.as_str())));
+                }
+                Err(e) => {
+                    out.insert("pl_de_err".into(), errs(e));
+                }
+            }
+            out.insert("pl".into(), json!(j));
+        }
+        Err(e) => {
+            out.insert("pl_ser_err".into(), errs(e));
+        }
+    }
+    match prqlc::pl_to_rq(pl) {
+        Ok(rq) => match prqlc::json::from_rq(&rq) {
+            Ok(j) => {
+                match prqlc::json::to_rq(&j) {
+                    Ok(rq2) => {
+                        out.insert("rq_eq".into(), json!(rq2 == rq));
+                        out.insert("rq_text_eq".into(), json!(prqlc::json::from_rq(&rq2).ok().as_deref() == Some(j.as_str())));
+                    }
+                    Err(e) => {
+                        out.insert("rq_de_err".into(), errs(e));
+                    }
+                }
+                out.insert("rq".into(), json!(j));
+            }
+            Err(e) => {
+                out.insert("rq_ser_err".into(), errs(e));
+            }
+        },
+        Err(e) => {
+            out.insert("rq_err".into(), errs(e));
+        }
+    }
+    Value::Object(out)
+}
+
+// {kind: "pl"|"rq", json: text} -> real serde: deserialise, serialise again -> {"ok": text} | {"de_err": msg}
+fn cmd_reser(req: &Value) -> Value {
+    let text = s(req, "json");
+    match s(req, "kind") {
+        "pl" => match prqlc::json::to_pl(text) {
+            Ok(x) => match prqlc::json::from_pl(&x) {
+                Ok(j) => {
+                    let again = prqlc::json::to_pl(&j).map(|y| y == x).unwrap_or(false);
+                    json!({"ok": j, "value_eq_after_second_trip": again})
+                }
+                Err(e) => json!({"ser_err": errs(e)}),
+            },
+            Err(e) => json!({"de_err": e.inner.first().map(|m| m.reason.clone()).unwrap_or_default()}),
+        },
+        "rq" => match prqlc::json::to_rq(text) {
+            Ok(x) => match prqlc::json::from_rq(&x) {
+                Ok(j) => {
+                    let again = prqlc::json::to_rq(&j).map(|y| y == x).unwrap_or(false);
+                    json!({"ok": j, "value_eq_after_second_trip": again})
+                }
+                Err(e) => json!({"ser_err": errs(e)}),
+            },
+            Err(e) => json!({"de_err": e.inner.first().map(|m| m.reason.clone()).unwrap_or_default()}),
+        },
+        k => json!({"bad_kind": k}),
+    }
+}
+
+pub fn dispatch(cmd: &str, req: &Value) -> Option<Value> {
+    match cmd {
+        "c15_both" => Some(cmd_both(req)),
+        "c15_json" => Some(cmd_json(req)),
+        "c15_reser" => Some(cmd_reser(req)),
+        _ => None,
+    }
 }
